@@ -38,7 +38,8 @@ Record thread_ok (g : sess) (i : nat) (t : thread) : Prop := {
   ok_tp : a_tok (t_abs t) = Some SPublish -> g_ready g = false;
   ok_tr : a_tok (t_abs t) = Some SRead -> g_tracks g = None;
   ok_kt : forall n, a_kt (t_abs t) = Some n -> n < ntracks g;
-  ok_rdy : a_rdy (t_abs t) = true -> g_ready g = true
+  ok_rdy : a_rdy (t_abs t) = true -> g_ready g = true;
+  ok_kn : a_kn (t_abs t) = true -> g_st g <> SIdle
 }.
 
 Definition ginv (g : sess) : Prop :=
@@ -77,8 +78,8 @@ Lemma frame : forall g i ti g' j tj,
   thread_ok g' j tj.
 Proof.
   intros g i ti g' j tj Hi Hch Hne Hj Huniq.
-  destruct Hi as [_ _ HiL _ HiK HiKi HiTok HiTp HiTr _ _].
-  destruct Hj as [Hwf Halt HjL Hon HjK HjKi HjTok HjTp HjTr HjKt HjRdy].
+  destruct Hi as [_ _ HiL _ HiK HiKi HiTok HiTp HiTr _ _ _].
+  destruct Hj as [Hwf Halt HjL Hon HjK HjKi HjTok HjTp HjTr HjKt HjRdy HjKn].
   assert (Hfree : g_lock g = LFree \/ g_lock g = LThread i -> t_holds tj = false).
   { intros H. destruct (t_holds tj) eqn:E; auto. destruct HjL as [H1 _]. specialize (H1 eq_refl).
     destruct H; congruence. }
@@ -119,7 +120,7 @@ Qed.
 Lemma ginv_gch : forall g i ti g', thread_ok g i ti -> ginv g -> gch g i ti g' -> ginv g'.
 Proof.
   intros g i ti g' Hi [G1 G2] Hch.
-  destruct Hi as [_ _ _ _ _ HiKi HiTok _ _ _ _].
+  destruct Hi as [_ _ _ _ _ HiKi HiTok _ _ _ _ _].
   destruct Hch as [g' E1 E2 E3 E4 E5 | HF | HL | Hk | s Hki Hs | k Ht | Ht]; unfold ginv; simpl; auto.
   - rewrite E3, E4, E5. auto.
   - destruct (HiKi Hki) as [_ Hidle]. split; intros _; [apply G1 | apply G2]; congruence.
@@ -181,7 +182,7 @@ Lemma exec_sound : forall c g i t ch,
 Proof.
   intros c g i t ch Hok [G1 G2] Halt Hon Hres.
   pose proof Hok as Hok0.
-  destruct Hok as [Hwf _ HL _ HK HKi HTok HTp HTr HKt HRdy].
+  destruct Hok as [Hwf _ HL _ HK HKi HTok HTp HTr HKt HRdy HKn].
   unfold exec_post, exec, ghost_after.
   destruct (t_ops t) as [|o r] eqn:Eops.
   { simpl in Hwf. destruct (t_holds t); simpl in *; congruence. }
@@ -214,6 +215,7 @@ Proof.
   all: try solve [exfalso; crush].
   all: try solve [exfalso; match goal with H : a_kt _ = Some _ |- _ => apply HKt in H; lia end].
   all: try (split; [ solve_gch | split; [ constructor; simpl; try assumption; try crush | simpl; auto ] ]).
+  - apply negb_false_iff in Heqb. apply st_eqb_eq in Heqb. apply HKn; auto.
   - intros n0 E. inversion E; subst.
     match goal with H : (_ <=? _) = false |- _ => apply Nat.leb_gt in H; lia end.
   - intros n0 Hn. apply HKt in Hn. unfold ntracks in Hn. rewrite HTr in Hn by assumption. lia.
